@@ -5,6 +5,9 @@ From Sakura.Model Require Import Base.
 
 Definition ISIZE_MIN : Z := - 9223372036854775808.
 
+(* an argument of a macro call: {text} or an integer literal *)
+Inductive marg := MStr (s : list ch) | MInt (v : Z).
+
 Inductive tok :=
 | TLineNo (ln : Z)
 | TNote (base flag natural : Z) (len : list ch) (qlen vel timing oct slur : Z)
@@ -22,4 +25,5 @@ Inductive tok :=
 | TKeyFlag (flags : list Z) | TKeyShift (arg : Z) | TTrackKey (arg : Z)
 | TTrackSync | TPlayFromHere | TComment
 | TTime (args : list Z) | TPlayFrom (args : list Z) | TTimeSignature (args : list Z) | TMeasureShift (arg : Z) | TTempo (arg : Z)
-| TVAdd (arg : Z) | TQAdd (arg : Z).
+| TVAdd (arg : Z) | TQAdd (arg : Z) | TTieMode (args : list Z)
+| TValue (name : list ch) (args : option (list (option marg))) (lineno : Z).
